@@ -16,10 +16,11 @@
 //   - REPLAY: for EVERY vector of per-shard states AsyncSearch.tla emits for N shards (EmitPVec:
 //     per shard none / some / all processed / done, with the proxy's done flag decided by the spec),
 //     every shard's client is made to give its recorded answer for that state and the real
-//     Ingestor.FetchAsyncSearchResult runs over them.  Done must be the model's; a done answer must
-//     equal the proxy's synchronous Search over the same stores (and the AggCases reference); a
-//     not-done answer must hold exactly the IDs the shards have given (PMergeIsUnion) and nothing
-//     the final answer lacks (PPartialWithinFinal).
+//     Ingestor.FetchAsyncSearchResult runs over them.  Where the model's answer is done the proxy
+//     must report done; EVERY answer that reports done must equal the proxy's synchronous Search
+//     over the same stores and the AggCases reference (PDoneImpliesSyncResult) - so a done flag that
+//     is not the model's is a violation exactly when the answer it vouches for is incomplete.  What
+//     a not-done answer holds is not judged (the property does not speak of it).
 //
 // A shard position may get a first replica that never saw the request (it refuses StartAsyncSearch
 // and answers NotFound to FetchAsyncSearchResult): `ghost` of the model.
@@ -57,9 +58,7 @@ type PVec struct {
 	NS     int      `json:"ns"`
 	Cls    []string `json:"cls"`
 	Done   bool     `json:"done"`
-	Sync   bool     `json:"sync"`   // the answer equals the synchronous search (decided by the spec for its corpus; demanded when done)
-	Union  bool     `json:"union"`  // the IDs are exactly the union of the shards' IDs
-	Within bool     `json:"within"` // the IDs are among the final ones
+	Sync   bool     `json:"sync"` // the model's answer equals its synchronous search (always so when done)
 }
 
 var (
@@ -174,25 +173,6 @@ func (s *shard) setPrefix(id string, k, have int) error {
 		}
 	}
 	return nil
-}
-
-func idSet(ids [][2]uint64) map[[2]uint64]bool {
-	m := map[[2]uint64]bool{}
-	for _, x := range ids {
-		m[x] = true
-	}
-	return m
-}
-
-func respIDs(r *pb.FetchAsyncSearchResultResponse) [][2]uint64 {
-	var out [][2]uint64
-	if r == nil || r.Response == nil {
-		return out
-	}
-	for _, s := range r.Response.IdSources {
-		out = append(out, [2]uint64{s.Id.Mid, s.Id.Rid})
-	}
-	return out
 }
 
 // ---------------------------------------------------------------- the stage
@@ -425,63 +405,43 @@ func (w *world) shardStage() (res *mismatch) {
 	if m := sync(); m != nil {
 		return m
 	}
-	synIDs := idSet(idsOf(syn))
 	syn0 := fmt.Sprint(idsOf(syn))
-	judge := func(tag string, cls []string, resp *search.FetchAsyncSearchResultResponse, given [][][2]uint64) *mismatch {
+	judge := func(tag string, cls []string, resp *search.FetchAsyncSearchResultResponse) *mismatch {
 		v := pvecByKey[pkey(cls)]
 		if v == nil {
 			return &mismatch{"infra", fmt.Sprintf("%s: vector %v is not among the states of AsyncSearch.tla", tag, cls)}
 		}
 		evals.Add(1)
-		if resp.Done != v.Done {
-			return &mismatch{"shards-done-flag", fmt.Sprintf("%s: shards %v: proxy reports done=%v, AsyncSearch.tla (PFetch.done) says %v", tag, cls, resp.Done, v.Done)}
+		if v.Done && !resp.Done {
+			return &mismatch{"shards-not-done", fmt.Sprintf("%s: shards %v: every shard is done but the proxy reports done=false (AsyncSearch.tla: PFetch.done)", tag, cls)}
+		}
+		if !resp.Done {
+			return nil // the property speaks of answers that report done
+		}
+		// PDoneImpliesSyncResult: an answer that reports done is the synchronous search over all shards
+		note := ""
+		if !v.Done {
+			note = " (AsyncSearch.tla: not done for this vector)"
 		}
 		got := idsOf(&resp.QPR)
-		if v.Done {
-			// PDoneImpliesSyncResult: the synchronous search over all shards
-			if fmt.Sprint(got) != fmt.Sprint(idsOf(syn)) {
-				return &mismatch{"shards-differs-ids", fmt.Sprintf("%s: shards %v done: IDs got %v sync %v", tag, cls, got, idsOf(syn))}
-			}
-			if histStr(resp.QPR.Histogram) != histStr(syn.Histogram) {
-				return &mismatch{"shards-differs-hist", fmt.Sprintf("%s: shards %v done: histogram got %s sync %s", tag, cls, histStr(resp.QPR.Histogram), histStr(syn.Histogram))}
-			}
-			sres := syn.Aggregate(w.args)
-			if len(resp.AggResult) != len(sres) {
-				return &mismatch{"shards-differs-agg", fmt.Sprintf("%s: shards %v done: aggregations got %d sync %d", tag, cls, len(resp.AggResult), len(sres))}
-			}
-			for i := range sres {
-				if what := sameAggResult(tag, resp.AggResult[i], sres[i], w.agg.Func, false); what != "" {
-					return &mismatch{"shards-differs-agg", fmt.Sprintf("shards %v done: %s", cls, what)}
-				}
-			}
-			if !dupx && !j.Dup {
-				if what := againstRef(c, &resp.QPR, w.agg); what != "" {
-					return &mismatch{"shards-ref", fmt.Sprintf("%s: shards %v done: against AggCases reference: %s", tag, cls, what)}
-				}
-			}
-			return nil
+		if fmt.Sprint(got) != fmt.Sprint(idsOf(syn)) {
+			return &mismatch{"shards-done-differs-ids", fmt.Sprintf("%s: shards %v: proxy reports done%s: IDs got %v sync %v", tag, cls, note, got, idsOf(syn))}
 		}
-		// PPartialWithinFinal, PMergeIsUnion
-		gs := idSet(got)
-		for x := range gs {
-			if v.Within && !synIDs[x] {
-				return &mismatch{"shards-partial-foreign", fmt.Sprintf("%s: shards %v: ID %v is not in the final answer %v", tag, cls, x, idsOf(syn))}
+		if histStr(resp.QPR.Histogram) != histStr(syn.Histogram) {
+			return &mismatch{"shards-done-differs-hist", fmt.Sprintf("%s: shards %v: proxy reports done%s: histogram got %s sync %s", tag, cls, note, histStr(resp.QPR.Histogram), histStr(syn.Histogram))}
+		}
+		sres := syn.Aggregate(w.args)
+		if len(resp.AggResult) != len(sres) {
+			return &mismatch{"shards-done-differs-agg", fmt.Sprintf("%s: shards %v: proxy reports done%s: aggregations got %d sync %d", tag, cls, note, len(resp.AggResult), len(sres))}
+		}
+		for i := range sres {
+			if what := sameAggResult(tag, resp.AggResult[i], sres[i], w.agg.Func, false); what != "" {
+				return &mismatch{"shards-done-differs-agg", fmt.Sprintf("shards %v: proxy reports done%s: %s", cls, note, what)}
 			}
 		}
-		if given != nil && v.Union {
-			un := map[[2]uint64]bool{}
-			for _, g := range given {
-				for _, x := range g {
-					un[x] = true
-				}
-			}
-			if len(un) != len(gs) || len(got) != len(gs) {
-				return &mismatch{"shards-partial-union", fmt.Sprintf("%s: shards %v: IDs got %v, the shards gave %v", tag, cls, got, given)}
-			}
-			for x := range un {
-				if !gs[x] {
-					return &mismatch{"shards-partial-union", fmt.Sprintf("%s: shards %v: IDs got %v, the shards gave %v", tag, cls, got, given)}
-				}
+		if !dupx && !j.Dup {
+			if what := againstRef(c, &resp.QPR, w.agg); what != "" {
+				return &mismatch{"shards-ref", fmt.Sprintf("%s: shards %v: proxy reports done%s: against AggCases reference: %s", tag, cls, note, what)}
 			}
 		}
 		return nil
@@ -497,7 +457,7 @@ func (w *world) shardStage() (res *mismatch) {
 			return m
 		}
 		liveObs.Add(1)
-		return judge(tag, cls, resp, nil)
+		return judge(tag, cls, resp)
 	}
 	if m := live("live, after the start"); m != nil {
 		return m
@@ -585,7 +545,6 @@ func (w *world) shardStage() (res *mismatch) {
 	// ---- every vector of the model over the recorded answers
 	for vi := range vecs {
 		v := &vecs[vi]
-		given := make([][][2]uint64, N)
 		ok := true
 		for si, s := range shs {
 			rs := s.rec[v.Cls[si]]
@@ -595,7 +554,6 @@ func (w *world) shardStage() (res *mismatch) {
 			}
 			r := rs[(vi+j.N)%len(rs)]
 			s.cli.replay.Store(r)
-			given[si] = respIDs(r)
 		}
 		if !ok {
 			vecsSkip.Add(1)
@@ -605,7 +563,7 @@ func (w *world) shardStage() (res *mismatch) {
 		pcovered.Store(pkey(v.Cls), true)
 		resp, m := fetch()
 		if m == nil {
-			m = judge("replay", v.Cls, resp, given)
+			m = judge("replay", v.Cls, resp)
 		} else {
 			m.what = fmt.Sprintf("replay, shards %v: %s", v.Cls, m.what)
 		}
